@@ -483,6 +483,18 @@ fn update_weights(
 
     let weight = calculate_weight(lp_asset, unlocking_duration)?;
 
+    // update the user's weight for this LP
+    let (_, old_address_lp_weight) =
+        get_latest_address_weight(deps.storage, receiver, &lp_asset.denom)?;
+
+    let address_lp_weight = if fill {
+        // filling position
+        old_address_lp_weight.checked_add(weight)?
+    } else {
+        // closing position
+        old_address_lp_weight.saturating_sub(weight)
+    };
+
     let (_, mut lp_weight) =
         get_latest_address_weight(deps.storage, &env.contract.address, &lp_asset.denom)?;
 
@@ -490,8 +502,10 @@ fn update_weights(
         // filling position
         lp_weight = lp_weight.checked_add(weight)?;
     } else {
-        // closing position
-        lp_weight = lp_weight.saturating_sub(weight);
+        // closing position: remove from the total exactly what is removed from the user, so
+        // the total never drops below the sum of the users' weights
+        lp_weight =
+            lp_weight.saturating_sub(old_address_lp_weight.saturating_sub(address_lp_weight));
     }
 
     // update the LP weight for the contract
@@ -504,18 +518,6 @@ fn update_weights(
         ),
         &lp_weight,
     )?;
-
-    // update the user's weight for this LP
-    let (_, mut address_lp_weight) =
-        get_latest_address_weight(deps.storage, receiver, &lp_asset.denom)?;
-
-    if fill {
-        // filling position
-        address_lp_weight = address_lp_weight.checked_add(weight)?;
-    } else {
-        // closing position
-        address_lp_weight = address_lp_weight.saturating_sub(weight);
-    }
 
     LP_WEIGHT_HISTORY.save(
         deps.storage,
